@@ -312,7 +312,7 @@ ORACLES = [
         classify=lambda c: "any",
         known_models={"any": check_pathline_known},
         quick=80,
-        thorough=400,
+        thorough=1000,
         shrink_seconds=120,
     ),
     Oracle(
